@@ -557,8 +557,8 @@ func c11Known(ci any, res Result, modelObs string) string { return "" }
 
 func init() {
 	register(&Prop{
-		ID: "C11",
-		Rule: "allow-lists of 0-5 entries built from base origins: literals, `*`, sub-domain wildcard, `*` label in the middle / at the end, partial-label `*`/`?`, several wildcards, wildcard in scheme / port, regexp metacharacters, degenerate entries; per list ~60 requests whose Origin is derived from one of ITS entries: instances (wildcards filled with labels, dotted runs, empty) and look-alikes (`?` filled with zero or two characters, suffix / prefix extension, left labels replaced, dot replaced, label inserted / dropped, other scheme, mangled `://`, hosts of 252-255 and origins of 260-262 bytes, the entry text itself, case change, char dropped / inserted, port, userinfo) x GET/POST/PUT/HEAD/OPTIONS x credentials / unsafe-wildcard flags; oracle decides Allowed with its own glob matcher (no regexp). Non-trivial = the allow-list has a wildcard pattern and the request has an Origin; distinct = distinct model op lines",
+		ID:             "C11",
+		Rule:           "allow-lists of 0-5 entries built from base origins: literals, `*`, sub-domain wildcard, `*` label in the middle / at the end, partial-label `*`/`?`, several wildcards, wildcard in scheme / port, regexp metacharacters, degenerate entries; per list ~60 requests whose Origin is derived from one of ITS entries: instances (wildcards filled with labels, dotted runs, empty) and look-alikes (`?` filled with zero or two characters, suffix / prefix extension, left labels replaced, dot replaced, label inserted / dropped, other scheme, mangled `://`, hosts of 252-255 and origins of 260-262 bytes, the entry text itself, case change, char dropped / inserted, port, userinfo) x GET/POST/PUT/HEAD/OPTIONS x credentials / unsafe-wildcard flags; oracle decides Allowed with its own glob matcher (no regexp). Non-trivial = the allow-list has a wildcard pattern and the request has an Origin; distinct = distinct model op lines",
 		New:            func() any { return &c11Case{} },
 		Gen:            c11Gen,
 		Run:            c11Run,
